@@ -22,8 +22,13 @@ ROOT = os.path.dirname(os.path.dirname(os.path.abspath(__file__)))
 BUILD = os.path.join(ROOT, "build")
 LEAN = os.path.join(ROOT, "lean")
 HARNESS = os.path.join(ROOT, "harness")
-HARNESS_BIN = os.path.join(BUILD, "target", "release", "sv-harness")
-DRIVER_BIN = os.path.join(LEAN, ".lake", "build", "bin", "modeldriver")
+HARNESS_BIN = os.environ.get("SV_HARNESS_BIN") or os.path.join(BUILD, "target", "release", "sv-harness")
+OUT_DIR = os.environ.get("SV_OUT_DIR") or ROOT   # evidence/ and replays/ go below this directory
+DRIVER_BIN = None  # set per property by run_check (lean/.lake/build/bin/drv_<prop>)
+
+
+def driver_bin(prop):
+    return os.path.join(LEAN, ".lake", "build", "bin", "drv_" + prop)
 ALLOWED_AXIOMS = {"propext", "Classical.choice", "Quot.sound"}
 NCPU = os.cpu_count() or 4
 
@@ -64,6 +69,8 @@ def env_offline():
 def build_harness():
     """(Re)build sv-harness against /repo's current working tree. Returns (ok, seconds, msg)."""
     t0 = time.time()
+    if os.environ.get("SV_HARNESS_BIN"):
+        return True, 0.0, "using prebuilt harness " + HARNESS_BIN
     with Lock(".cargo.lock"):
         lockfile = os.path.join(HARNESS, "Cargo.lock")
         if not os.path.exists(lockfile):
@@ -211,8 +218,8 @@ def run_impl_parallel(cases, env=None, jobs=None):
     return res
 
 
-def run_model(lines):
-    out, rc, err = run_lines(DRIVER_BIN, lines)
+def run_model(lines, prop=None):
+    out, rc, err = run_lines(driver_bin(prop) if prop else DRIVER_BIN, lines)
     if rc != 0:
         raise RuntimeError("modeldriver failed rc=%s: %s" % (rc, err))
     return out
@@ -257,7 +264,7 @@ class Finding:
 
 
 def write_replay(prop, n, payload):
-    d = os.path.join(ROOT, "replays", prop)
+    d = os.path.join(OUT_DIR, "replays", prop)
     os.makedirs(d, exist_ok=True)
     p = os.path.join(d, "%03d.json" % n)
     with open(p, "w") as fh:
@@ -297,13 +304,15 @@ def run_check(prop, tier, seed, replay=None):
     t0 = time.time()
     mod = load_prop(prop)
     rng = random.Random((seed * 1000003) ^ int(hashlib.sha1(prop.encode()).hexdigest()[:8], 16))
-    os.makedirs(os.path.join(ROOT, "evidence"), exist_ok=True)
-    evidence_path = os.path.join(ROOT, "evidence", prop + ".json")
+    global DRIVER_BIN
+    DRIVER_BIN = driver_bin(prop)
+    os.makedirs(os.path.join(OUT_DIR, "evidence"), exist_ok=True)
+    evidence_path = os.path.join(OUT_DIR, "evidence", prop + ".json")
     if os.path.exists(evidence_path) and not replay:
         os.remove(evidence_path)
     if not replay:
         import glob
-        for old in glob.glob(os.path.join(ROOT, "replays", prop, "*.json")):
+        for old in glob.glob(os.path.join(OUT_DIR, "replays", prop, "*.json")):
             os.remove(old)
 
     findings = []
@@ -324,7 +333,7 @@ def run_check(prop, tier, seed, replay=None):
                 findings.append(f)
 
     # 3. Lean: property theorems + driver
-    lean_ok, lsecs, lmsg = build_lean(["ScryerModel.Props." + prop, "modeldriver"])
+    lean_ok, lsecs, lmsg = build_lean(["ScryerModel.Props." + prop, "drv_" + prop])
     log("[%s] lake build: %s in %.1fs" % (prop, "ok" if lean_ok else "FAILED", lsecs))
     theorems, _src = property_theorems(prop)
     closure, hits = forbidden_tokens(prop)
@@ -350,7 +359,7 @@ def run_check(prop, tier, seed, replay=None):
         # which theorems fail? report the build log tail
         bad_theorems.append(("lake build ScryerModel.Props." + prop, lmsg[-1500:]))
         # the driver may still be buildable for the failing-input search
-        d_ok, _, _ = build_lean(["modeldriver"])
+        d_ok, _, _ = build_lean(["drv_" + prop])
         if not d_ok and not os.path.exists(DRIVER_BIN):
             print("VIOLATION property=%s replay=%s no-failing-input-found" % (
                 prop, write_replay(prop, 0, {"broken_obligation": bad_theorems, "note": "model driver does not build"})))
